@@ -83,7 +83,7 @@ theorem factor_replay (env : Env) (o : String) (f : Frame) (x : String) (ts : TS
         obtain ⟨v, ts1⟩ := r
         simp only [he, Except.ok.injEq, Prod.mk.injEq] at h
         obtain ⟨rfl, rfl, rfl⟩ := h
-        obtain ⟨h1, h2, h3⟩ := eval_replay env f e ts hr v ts1 he
+        obtain ⟨h1, h2, h3, _⟩ := eval_replay env f e ts hr v ts1 he
         subst h1
         refine ⟨rfl, rfl, ⟨numEncoded_len h2, numEncoded_len h2⟩, fun is => ?_⟩
         unfold evalFactor
@@ -148,7 +148,7 @@ theorem factor_replay (env : Env) (o : String) (f : Frame) (x : String) (ts : TS
                 catCall_select, h1, Except.map, liftT, catEncoded_select g1 is,
                 setKey_of_getKey _ _ _ hcats, selFactor]
 
-theorem factorReady_mono (env : Env) {ts ts' : TStates} {es es' : EStates} (h1 : Extends ts ts')
+theorem factorReady_mono (env : Env) {ts ts' : TStates} {es es' : EStates} (h1 : TExtends ts ts')
     (h2 : Extends es es') (x : String) (h : FactorReady env ts es x) : FactorReady env ts' es' x := by
   unfold FactorReady at h ⊢
   cases hs : env.sem x with
@@ -166,8 +166,8 @@ theorem factorReady_mono (env : Env) {ts ts' : TStates} {es es' : EStates} (h1 :
 theorem factor_stable (env : Env) (o : String) (f : Frame) (x : String) (ts : TStates) (es : EStates)
     (hsc : StatesComplete env ts) (ef : EvaledFactor) (ts1 : TStates) (es1 : EStates)
     (h : evalFactor env o f x ts es = .ok (ef, ts1, es1)) :
-    StatesComplete env ts1 ∧ Extends ts ts1 ∧ Extends es es1 ∧ FactorReady env ts1 es1 x ∧
-      ∀ tsX esX, Extends ts1 tsX → Extends es1 esX →
+    StatesComplete env ts1 ∧ TExtends ts ts1 ∧ Extends es es1 ∧ FactorReady env ts1 es1 x ∧
+      ∀ tsX esX, TExtends ts1 tsX → Extends es1 esX →
         evalFactor env o f x tsX esX = .ok (ef, tsX, esX) := by
   unfold evalFactor at h
   cases hs : env.sem x with
@@ -178,7 +178,7 @@ theorem factor_stable (env : Env) (o : String) (f : Frame) (x : String) (ts : TS
     | lit v =>
       simp only [Except.ok.injEq, Prod.mk.injEq] at h
       obtain ⟨rfl, rfl, rfl⟩ := h
-      refine ⟨hsc, extends_refl _, extends_refl _, by simp [FactorReady, hs], fun tsX esX _ _ => ?_⟩
+      refine ⟨hsc, texends_refl _, extends_refl _, by simp [FactorReady, hs], fun tsX esX _ _ => ?_⟩
       unfold evalFactor
       simp only [hs]
     | num e =>
@@ -199,7 +199,7 @@ theorem factor_stable (env : Env) (o : String) (f : Frame) (x : String) (ts : TS
         simp only [hd] at h
         -- the levels the first encoding is called with, and the categories it records
         have key : ∀ (c' : Contrasts.Contrast) (r : Bool) (enc : Contrasts.Encoded) (cats : List Contrasts.Label),
-            catCall c' r o (recordedLevels es f.declared x var) data
+            catCall c' r o (recordedLevels es (explicitDecl env x var ++ f.declared) x var) data
               = .ok (enc, cats) →
             catCall c' r o (some cats) data = .ok (enc, cats) ∧
               (getKey es x = none ∨ getKey es x = some cats) := by
@@ -212,7 +212,7 @@ theorem factor_stable (env : Env) (o : String) (f : Frame) (x : String) (ts : TS
             exact ⟨hc, .inr rfl⟩
           | none =>
             simp only [hg] at hc
-            cases hdcl : getKey f.declared var with
+            cases hdcl : getKey (explicitDecl env x var ++ f.declared) var with
             | none => rw [hdcl] at hc; exact ⟨catCall_none hc, .inl rfl⟩
             | some dl =>
               rw [hdcl] at hc
@@ -226,7 +226,7 @@ theorem factor_stable (env : Env) (o : String) (f : Frame) (x : String) (ts : TS
         cases viaC with
         | true =>
           simp only [if_true] at h
-          cases h1 : catCall c false o (recordedLevels es f.declared x var) data with
+          cases h1 : catCall c false o (recordedLevels es (explicitDecl env x var ++ f.declared) x var) data with
           | error x => simp [h1, liftT] at h
           | ok r1 =>
             obtain ⟨encF, cats1⟩ := r1
@@ -246,17 +246,17 @@ theorem factor_stable (env : Env) (o : String) (f : Frame) (x : String) (ts : TS
                 | ok eR =>
                   simp only [g1, g2, Except.ok.injEq, Prod.mk.injEq] at h
                   obtain ⟨rfl, rfl, rfl⟩ := h
-                  refine ⟨hsc, extends_refl _, hext _ k2, ?_, fun tsX esX _ hx => ?_⟩
+                  refine ⟨hsc, texends_refl _, hext _ k2, ?_, fun tsX esX _ hx => ?_⟩
                   · simp only [FactorReady, hs]
                     exact ⟨_, getKey_setKey_same _ _ _⟩
                   · have hgx : getKey esX x = some cats2 := hx _ _ (getKey_setKey_same _ _ _)
-                    have hlv : recordedLevels esX f.declared x var = some cats2 := by
+                    have hlv : recordedLevels esX (explicitDecl env x var ++ f.declared) x var = some cats2 := by
                       simp only [recordedLevels, hgx]
                     unfold evalFactor
                     simp only [hs, hd, hlv, if_true, k1, h2, liftT, g1, g2, setKey_of_getKey _ _ _ hgx]
         | false =>
           simp only [Bool.false_eq_true, if_false] at h
-          cases h1 : catCall (.treatment none) false o (recordedLevels es f.declared x var) data with
+          cases h1 : catCall (.treatment none) false o (recordedLevels es (explicitDecl env x var ++ f.declared) x var) data with
           | error x => simp [h1, liftT] at h
           | ok r1 =>
             obtain ⟨enc, cats1⟩ := r1
@@ -267,11 +267,11 @@ theorem factor_stable (env : Env) (o : String) (f : Frame) (x : String) (ts : TS
             | ok e =>
               simp only [g1, Except.ok.injEq, Prod.mk.injEq] at h
               obtain ⟨rfl, rfl, rfl⟩ := h
-              refine ⟨hsc, extends_refl _, hext _ k2, ?_, fun tsX esX _ hx => ?_⟩
+              refine ⟨hsc, texends_refl _, hext _ k2, ?_, fun tsX esX _ hx => ?_⟩
               · simp only [FactorReady, hs]
                 exact ⟨_, getKey_setKey_same _ _ _⟩
               · have hgx : getKey esX x = some cats1 := hx _ _ (getKey_setKey_same _ _ _)
-                have hlv : recordedLevels esX f.declared x var = some cats1 := by
+                have hlv : recordedLevels esX (explicitDecl env x var ++ f.declared) x var = some cats1 := by
                   simp only [recordedLevels, hgx]
                 unfold evalFactor
                 simp only [hs, hd, hlv, Bool.false_eq_true, if_false, k1, liftT, g1, setKey_of_getKey _ _ _ hgx]
@@ -314,14 +314,14 @@ theorem factors_replay (env : Env) (o : String) (f : Frame) (xs : List String) (
 theorem factors_stable (env : Env) (o : String) (f : Frame) (xs : List String) (ts : TStates) (es : EStates)
     (hsc : StatesComplete env ts) (c : Cache) (ts1 : TStates) (es1 : EStates)
     (h : evalFactors env o f xs ts es = .ok (c, ts1, es1)) :
-    StatesComplete env ts1 ∧ Extends ts ts1 ∧ Extends es es1 ∧ (∀ x ∈ xs, FactorReady env ts1 es1 x) ∧
-      ∀ tsX esX, Extends ts1 tsX → Extends es1 esX →
+    StatesComplete env ts1 ∧ TExtends ts ts1 ∧ Extends es es1 ∧ (∀ x ∈ xs, FactorReady env ts1 es1 x) ∧
+      ∀ tsX esX, TExtends ts1 tsX → Extends es1 esX →
         evalFactors env o f xs tsX esX = .ok (c, tsX, esX) := by
   induction xs generalizing c ts es ts1 es1 with
   | nil =>
     simp only [evalFactors, Except.ok.injEq, Prod.mk.injEq] at h
     obtain ⟨rfl, rfl, rfl⟩ := h
-    exact ⟨hsc, extends_refl _, extends_refl _, fun _ hx => (by cases hx), fun _ _ _ _ => rfl⟩
+    exact ⟨hsc, texends_refl _, extends_refl _, fun _ hx => (by cases hx), fun _ _ _ _ => rfl⟩
   | cons x xs ih =>
     simp only [evalFactors] at h
     cases h1 : evalFactor env o f x ts es with
@@ -337,11 +337,11 @@ theorem factors_stable (env : Env) (o : String) (f : Frame) (xs : List String) (
         simp only [h2, Except.ok.injEq, Prod.mk.injEq] at h
         obtain ⟨rfl, rfl, rfl⟩ := h
         obtain ⟨j1, j2, j3, j4, j5⟩ := ih tsa esa k1 c2 tsb esb h2
-        refine ⟨j1, extends_trans k2 j2, extends_trans k3 j3, ?_, fun tsX esX hx1 hx2 => ?_⟩
+        refine ⟨j1, texends_trans k2 j2, extends_trans k3 j3, ?_, fun tsX esX hx1 hx2 => ?_⟩
         · intro y hy
           rcases List.mem_cons.1 hy with rfl | hy
           · exact factorReady_mono env j2 j3 _ k4
           · exact j4 y hy
-        · simp only [evalFactors, k5 tsX esX (extends_trans j2 hx1) (extends_trans j3 hx2), j5 tsX esX hx1 hx2]
+        · simp only [evalFactors, k5 tsX esX (texends_trans j2 hx1) (extends_trans j3 hx2), j5 tsX esX hx1 hx2]
 
 end FormulaicVerif.Proofs.C04
